@@ -212,30 +212,51 @@ def rawFilterExtractC (p : Bytes) : M (Option Ep) := do
 
 /-! ### packet_hash.rs -/
 
-/-- `packet.len() > 14 && ((packet[12] == 0x08 && packet[13] == 0x00) || (packet[12] == 0x86 &&
-packet[13] == 0xDD))`, left to right. -/
-def looksEthC (p : Bytes) : M Bool :=
-  if 14 < p.length then do
-    let a ← idx p 12
-    let first ← (if a = 0x08 then do let b ← idx p 13; pure (decide (b = 0x00)) else pure false)
-    if first then pure true
-    else do
-      let a' ← idx p 12
-      if a' = 0x86 then do let b ← idx p 13; pure (decide (b = 0xDD)) else pure false
-  else pure false
+/-- `locate_ip` (fix C18), every index as written: `packet[12]`, `packet[13]` behind `len >= 14`;
+`packet[0]` behind `len >= 20`; `packet[0]`, `packet[1]` (left to right, short-circuit) and `packet[4]`
+behind `len >= 24`. -/
+def locateIpC (p : Bytes) : M (Option (Nat × IpVer)) := do
+  let eth ← (if 14 ≤ p.length then do
+      let et ← be16At p 12 13                   -- `u16::from_be_bytes([packet[12], packet[13]])`
+      if et = 0x0800 ∧ 34 ≤ p.length then pure (some (14, IpVer.v4))
+      else if et = 0x86DD ∧ 54 ≤ p.length then pure (some (14, IpVer.v6))
+      else pure none
+    else pure none)
+  match eth with
+  | some r => pure (some r)
+  | none => do
+    let raw ← (if 20 ≤ p.length then do
+        let b0 ← idx p 0                        -- `packet[0] >> 4`
+        if b0 / 16 = 4 then pure (some (0, IpVer.v4))
+        else if b0 / 16 = 6 ∧ 40 ≤ p.length then pure (some (0, IpVer.v6))
+        else pure none
+      else pure none)
+    match raw with
+    | some r => pure (some r)
+    | none =>
+      if 24 ≤ p.length then do
+        let b0 ← idx p 0
+        if b0 = 0x1e then do
+          let b1 ← idx p 1
+          if b1 = 0 then do
+            let v ← idx p 4                     -- `packet[4] >> 4`
+            if v / 16 = 4 then pure (some (4, IpVer.v4))
+            else if v / 16 = 6 ∧ 44 ≤ p.length then pure (some (4, IpVer.v6))
+            else pure none
+          else pure none
+        else pure none
+      else pure none
 
 def hashInputTcpC (p : Bytes) : M HashIn := do
-  let eth ← looksEthC p
-  let off := if eth then 14 else 0
-  if p.length < off + 20 then pure (.bytes p)
-  else do
+  match ← locateIpC p with
+  | none => pure (.bytes p)
+  | some (off, ver) => do
     let ip ← from_ p off                        -- `&packet[ip_start..]`
-    let b0 ← idx ip 0                           -- `(ip_packet[0] >> 4) & 0x0F`
-    if b0 / 16 = 4 then
-      (if 16 ≤ ip.length then do let s ← range ip 12 16; pure (.bytes s) else pure (.bytes p))
-    else if b0 / 16 = 6 then
-      (if 24 ≤ ip.length then do let s ← range ip 8 24; pure (.bytes s) else pure (.bytes p))
-    else pure (.bytes p)
+    match ver with
+    | .v4 =>
+      if 16 ≤ ip.length then do let s ← range ip 12 16; pure (.bytes s) else pure (.bytes p)
+    | .v6 =>
+      if 24 ≤ ip.length then do let s ← range ip 8 24; pure (.bytes s) else pure (.bytes p)
 
 /-- shared by HTTP (`some` continuation: canonical order) and TLS -/
 def v4FlowC (ip : Bytes) : M (Option (Option (Bytes × Bytes × Nat × Nat))) :=
@@ -283,32 +304,32 @@ def hashV6FlowHttpC (ip : Bytes) : M HashIn := do
   | some (some (s, d, sp, dp)) => pure (canonFlow s d sp dp)
 
 def hashInputHttpC (p : Bytes) : M HashIn := do
-  let eth ← looksEthC p
-  let off := if eth then 14 else 0
-  if p.length < off + 40 then pure (.bytes p)
-  else do
-    let ip ← from_ p off
-    let b0 ← idx ip 0
-    if b0 / 16 = 4 then hashV4FlowHttpC ip
-    else if b0 / 16 = 6 then hashV6FlowHttpC ip
-    else pure (.bytes p)
+  match ← locateIpC p with
+  | none => pure (.bytes p)
+  | some (off, ver) =>
+    if p.length < off + 40 then pure (.bytes p)
+    else do
+      let ip ← from_ p off
+      match ver with
+      | .v4 => hashV4FlowHttpC ip
+      | .v6 => hashV6FlowHttpC ip
 
 def hashInputTlsC (p : Bytes) : M (Option HashIn) := do
-  let eth ← looksEthC p
-  let off := if eth then 14 else 0
-  if p.length < off + 40 then pure none
-  else do
-    let ip ← from_ p off
-    let b0 ← idx ip 0
-    if b0 / 16 = 4 then do
-      match ← v4FlowC ip with
-      | some (some (s, d, sp, dp)) => pure (some (.flow s d sp dp))
-      | _ => pure none
-    else if b0 / 16 = 6 then do
-      match ← v6FlowC ip with
-      | some (some (s, d, sp, dp)) => pure (some (.flow s d sp dp))
-      | _ => pure none
-    else pure none
+  match ← locateIpC p with
+  | none => pure none
+  | some (off, ver) =>
+    if p.length < off + 40 then pure none
+    else do
+      let ip ← from_ p off
+      match ver with
+      | .v4 => do
+        match ← v4FlowC ip with
+        | some (some (s, d, sp, dp)) => pure (some (.flow s d sp dp))
+        | _ => pure none
+      | .v6 => do
+        match ← v6FlowC ip with
+        | some (some (s, d, sp, dp)) => pure (some (.flow s d sp dp))
+        | _ => pure none
 
 /-! ### the entry points as the callers use them -/
 
